@@ -185,13 +185,36 @@ def de_correspondence(ctx, res, by, qs, items, dd, st):
     allc = [(qi, text, dd.get((qi, k))) for qi, k, text in scope] + [(qi, text, dp.get((qi, k))) for qi, k, text in probes]
     allc = [c for c in allc if c[2] is not None]
     model = S.de_model(res, [(qi, text) for qi, text, _ in allc])
+    # the acceptance theorem on these very cases: inside its hypotheses every member is read (never a contradiction), and
+    # the real serde_json::from_str must agree
+    inst = allc[:300 if ctx.quick else 3000]
+    hyp, nr2, codes = S.de_theorem_instances(res, [(qi, text) for qi, text, _ in inst])
+    st["thm_env_hypotheses_hold"] = st.get("thm_env_hypotheses_hold", 0) + hyp
+    st["thm_env_definitions"] = st.get("thm_env_definitions", 0) + nr2
+    if not hyp:
+        raise vlib.HarnessError("C02_members_are_accepted: the shrunk corpus environment does not satisfy plain_envb && de_envb")
+    for (qi, text, real), c in zip(inst, codes):
+        key = {0: "thm_outside_hypotheses", 1: "thm_member_accepted", 2: "thm_member_rejected", 3: "thm_not_a_member"}[c]
+        st[key] = st.get(key, 0) + 1
+        if c == 2:
+            raise vlib.HarnessError("C02_members_are_accepted contradicted by evaluation: %s <- %s" % (C.rust_ty(qs[qi]), text))
+        if c == 1 and real.startswith("\x00") and classify(by, qs[qi]) is None:
+            ctx.fail("a member of the TypeScript type inside the theorem's fragment is rejected by serde_json::from_str", dict(
+                kind="property-violated", type=C.rust_ty(qs[qi]), json=text, real=real.replace("\x00", "rejected: "),
+                theorem="C02_members_are_accepted (the model accepts: the model of serde or the binding is wrong)"))
     breaks = []
     st["de_model_cases"] = st.get("de_model_cases", 0) + len(allc)
     for (qi, text, real), m in zip(allc, model):
         acc_real = not real.startswith("\x00")
         acc_model = m.startswith("A")
         st["de_" + ("accepted" if acc_real else "rejected")] = st.get("de_" + ("accepted" if acc_real else "rejected"), 0) + 1
-        if acc_real != acc_model:
+        cls = classify(by, qs[qi]) if (acc_model and not acc_real) else None
+        if cls in ("serde_buffered_128bit", "serde_buffered_integer_map_key"):
+            # the model reads the text directly; the real Deserialize goes through serde's buffer (known classes)
+            st["de_known_buffered"] = st.get("de_known_buffered", 0) + 1
+            ctx.known_class(cls, "%s <- %s" % (C.rust_ty(qs[qi]), text[:100]),
+                            dict(kind="property-violated", what="a member of the TypeScript type is rejected by serde's Deserialize", type=C.rust_ty(qs[qi]), json=text, real=real.replace("\x00", "rejected: ")))
+        elif acc_real != acc_model:
             breaks.append(dict(type=C.rust_ty(qs[qi]), json=text, real=real.replace("\x00", "rejected: "), model=m[:200]))
         elif acc_real and m[1:] != real and "." not in real and "e" not in real.lower().replace("true", "").replace("false", "").replace("null", ""):
             st["de_reserialised_text_differs"] = st.get("de_reserialised_text_differs", 0) + 1
